@@ -158,6 +158,13 @@ def guard_for(path, ev_index, ev, kind, consts):
                     and (_has_len(va) or _has_len(vb)):
                 # a sum of lengths of buffers that are in memory at the same time cannot exceed the address space
                 return "sum of in-memory buffer lengths (remaining()/len())"
+            if t.akind == "overflow" and t.aop == "Sub" and va is not None and vb is not None and _is_len_call(vb) and vb[2]:
+                # a - chunk.len() where chunk = take_chunk(.., a): the chunk was cut to at most `a` bytes (BufList::take_chunk, split_to(min(..)))
+                src_ = vb[2][0]
+                while src_[0] in ("proj", "okval"):
+                    src_ = src_[1]
+                if src_[0] == "call" and pa.short(src_[1]) == "take_chunk" and len(src_[2]) >= 2 and src_[2][-1] == va:
+                    return "subtrahend is the length of a chunk taken with that very limit (take_chunk(.., limit))"
             a = expr.fold(va, consts) if va is not None else None
             b = expr.fold(vb, consts) if vb is not None else None
             if t.akind in ("divzero", "remzero"):
